@@ -999,21 +999,24 @@ func execC10Handoff(m sshdMsg) Outcome {
 	select {
 	case <-called:
 	case <-time.After(300 * time.Millisecond):
-	case err := <-done:
-		return fail("accepted line %q returned (%v) without handing a login over", m.Msg, err)
+	case <-done:
+		// (whether an accepted line forwards a login at all is C05's concern)
+		return Outcome{Skip: "no_hand_off_attempted"}
 	}
 	select {
 	case l := <-logins:
 		if rec.Len() == 0 {
 			return fail("the login of pid %d reached the correlator before its UserLogin event was written (line %q): a UserAction carrying its identity can precede the UserLogin in the output", l.PID, m.Msg)
 		}
+	case <-done:
+		return Outcome{Skip: "no_hand_off_attempted"}
 	case <-time.After(10 * time.Second):
-		return fail("no login handed over within 10s for %q", m.Msg)
+		return Outcome{Skip: "no_hand_off_within_10s"}
 	}
 	select {
 	case <-done:
 	case <-time.After(10 * time.Second):
-		return fail("processing did not return after the hand-off")
+		return Outcome{Skip: "processing_did_not_return_(C13's_concern)"}
 	}
 	return Outcome{NT: true, Labels: []string{"form:" + m.Form}}
 }
